@@ -136,6 +136,42 @@ func toEventReference(data any) []eventReference {
 	}
 }
 
+// stringFieldsAreUTF8 reports whether every string of the proto-event that
+// becomes a JSON string of the event is valid UTF-8.
+func (eb *EventBuilder) stringFieldsAreUTF8(origin spec.ServerName) bool {
+	for _, s := range []string{eb.SenderID, eb.RoomID, eb.Type, eb.Redacts, string(origin)} {
+		if !utf8.ValidString(s) {
+			return false
+		}
+	}
+	if eb.StateKey != nil && !utf8.ValidString(*eb.StateKey) {
+		return false
+	}
+	for _, refs := range []interface{}{eb.PrevEvents, eb.AuthEvents} {
+		switch ids := refs.(type) {
+		case []string:
+			for _, id := range ids {
+				if !utf8.ValidString(id) {
+					return false
+				}
+			}
+		case []eventReference:
+			for _, ref := range ids {
+				if !utf8.ValidString(ref.EventID) {
+					return false
+				}
+			}
+		case []interface{}:
+			for _, id := range ids {
+				if s, ok := id.(string); ok && !utf8.ValidString(s) {
+					return false
+				}
+			}
+		}
+	}
+	return true
+}
+
 // Build a new Event.
 // This is used when a local event is created on this server.
 // Call this after filling out the necessary fields.
@@ -147,6 +183,13 @@ func (eb *EventBuilder) Build(
 ) (result PDU, err error) {
 	if eb.version == nil {
 		return nil, fmt.Errorf("EventBuilder.Build: unknown version, did you create this via NewEventBuilder?")
+	}
+
+	// The string fields of the proto-event go through encoding/json, which
+	// writes U+FFFD for every byte that is not UTF-8: proto-events differing
+	// only in such bytes would be built into one and the same event.
+	if !eb.stringFieldsAreUTF8(origin) {
+		return nil, fmt.Errorf("EventBuilder.Build: event is not valid UTF-8")
 	}
 
 	eventFormat := eb.version.EventFormat()
